@@ -28,6 +28,7 @@ type Keys struct {
 	matched   []rune      // Keys that have been successfully matched against a bind.
 	macroKeys []rune      // Keys that have been fed by a macro.
 	mustWait  bool        // Keys are in the stack, but we must still read stdin.
+	partial   []byte      // Bytes of a character cut by the end of a read (convert-meta).
 	waiting   bool        // Currently waiting for keys on stdin.
 	reading   bool        // Currently reading keys out of the main loop.
 	keysOnce  chan []byte // Passing keys from the main routine.
@@ -87,7 +88,10 @@ func WaitAvailableKeys(keys *Keys, cfg *inputrc.Config) error {
 			// When convert-meta is on, any meta-prefixed bind should
 			// be stripped and replaced with an escape meta instead.
 			if keys.cfg != nil && keys.cfg.GetBool("convert-meta") {
-				keyBuf = []byte(strutil.ConvertMeta([]rune(string(keyBuf))))
+				keyBuf = keys.convertMeta(keyBuf)
+				if len(keyBuf) == 0 {
+					continue
+				}
 			}
 
 			keys.mutex.RLock()
@@ -97,6 +101,35 @@ func WaitAvailableKeys(keys *Keys, cfg *inputrc.Config) error {
 
 		return nil
 	}
+}
+
+// convertMeta applies the convert-meta translation to the characters of a read.
+// A read can end in the middle of a character: the bytes of an incomplete one are
+// kept for the next read instead of being decoded on their own, and bytes that are
+// not part of a valid encoding are left as they are.
+func (k *Keys) convertMeta(read []byte) []byte {
+	read = append(k.partial, read...)
+	k.partial = nil
+
+	converted := make([]byte, 0, len(read))
+
+	for len(read) > 0 {
+		if !utf8.FullRune(read) {
+			k.partial = append(k.partial, read...)
+			break
+		}
+
+		char, size := utf8.DecodeRune(read)
+		if char == utf8.RuneError && size == 1 {
+			converted = append(converted, read[0])
+		} else {
+			converted = append(converted, strutil.ConvertMeta([]rune{char})...)
+		}
+
+		read = read[size:]
+	}
+
+	return converted
 }
 
 // PopKey is used to pop a key off the key stack without
